@@ -25,6 +25,24 @@ def death_key(r):
     return '%s:%s:%s' % (r['cls'], sid, WM[k] if 0 <= k < 3 else str(k))
 
 
+def symbolise(exe, text):
+    """Replace @0x<offset> tokens (code offsets inside the executable) by function names and source lines."""
+    import subprocess
+    offs = sorted(set(re.findall(r'@0x[0-9a-f]+', text or '')))
+    if not offs:
+        return text
+    try:
+        out = subprocess.run(['addr2line', '-f', '-C', '-s', '-e', exe] + [o[1:] for o in offs], capture_output=True,
+                             text=True, timeout=60).stdout.splitlines()
+    except Exception:
+        return text
+    for i, o in enumerate(offs):
+        if 2 * i + 1 < len(out):
+            fn = re.sub(r'<.*', '', out[2 * i])[:60]
+            text = text.replace(o, '%s (%s)' % (fn, out[2 * i + 1]))
+    return text
+
+
 class ThrReplayer(checks.Replayer):
     def interpret(self, res):
         for line in res['out']:
@@ -111,7 +129,7 @@ def check(tier, seed):
         with open(path, 'w') as f:
             f.write(small)
             f.write('build %s\nexpect %s\n# found by seed %d run %d; %d replays; %s\n' % (b, key, seed, r['run'], used, (d3 or '')[:400]))
-        rep.add_violation(key, (d3 or r.get('detail', ''))[:400], path)
+        rep.add_violation(key, symbolise(exe, d3 or r.get('detail', ''))[:700], path)
     samples = []
     for i in range(3):
         res = run.run_once(exes[BUILDS[0][0]], base + ['--emit-plan', str(i)])
